@@ -414,13 +414,14 @@ static void fam_run(uint64_t seed, const RunOpts *o, Result *r) {
     for (int i = 0; i < P.nclients; i++) {
         if (P.c[i].kill_sys && WIFSIGNALED(cl[i]->status) && WTERMSIG(cl[i]->status) == SIGKILL) continue;  /* we killed it */
         Ref *ref = client_ref(P.c[i].prog, P.c[i].tok);
-        if (!ref || !ref->valid) continue;   /* standalone VM crashed on it: not this property's business */
+        if (strcmp(P.c[i].prog, "extern_die") != 0 && (!ref || !ref->valid)) continue;   /* standalone VM crashed on it: not this property's business */
         if (cl[i]->alive) { res_violation(r, prop, "client-hung:%s", P.c[i].prog); buf_printf(&r->detail, "client%d (%s) never terminated\n", i, P.c[i].prog); continue; }
         Buf e1 = {0}, e2 = {0}; strip_vmd_lines(&cerr[i], &e1); strip_vmd_lines(&ref->err, &e2);
         const char *what = NULL;
         if (!buf_eq(&cout[i], &ref->out)) what = "stdout";
         else if (exit_code_of(cl[i]->status) != exit_code_of(ref->status)) what = "status";
         else if (!buf_eq(&e1, &e2)) what = "stderr";
+        if (strcmp(P.c[i].prog, "extern_die") == 0) { if (cl[i]->alive) res_violation(r, prop, "client-hung:extern_die"); continue; }   /* kills its own co-process: only the others are compared */
         bool session_may_fail = false; { const uint8_t *md; size_t mn; bool ne = false; if (ncopkill > 0 && client_module(P.c[i].prog, P.c[i].tok, &md, &mn, &ne)) session_may_fail = ne; }
         if (what && session_may_fail && exit_code_of(cl[i]->status) == 1 && e1.len > 0 && cout[i].len <= ref->out.len &&
             (cout[i].len == 0 || memcmp(cout[i].d, ref->out.d, cout[i].len) == 0)) { what = NULL; }   /* co-process was killed under it: contained failure (C16's outcome) */
